@@ -85,6 +85,27 @@ def run_verus(path, seed=None, rlimit=None, extra=None):
     return {'cmd': ' '.join(cmd), 'json': js, 'diags': diags, 'stderr': p.stderr, 'wall_s': wall, 'rc': p.returncode}
 
 
+def resolve_spans(d, gen_name):
+    """Replace spans that point into macro definitions (core/vstd) by their call site in the generated file."""
+    out = []
+    for s in d.get('spans', []):
+        cur = s
+        hops = 0
+        while cur is not None and os.path.basename(cur.get('file_name', '')) != gen_name and hops < 10:
+            exp = cur.get('expansion')
+            cur = exp.get('span') if exp else None
+            hops += 1
+        if cur is not None:
+            cur = dict(cur)
+            cur['is_primary'] = s.get('is_primary', False)
+            cur['label'] = s.get('label')
+            out.append(cur)
+        else:
+            out.append(s)
+    d['spans'] = out
+    return d
+
+
 def classify_message(d):
     msg = d.get('message', '')
     if d.get('level') != 'error':
@@ -117,10 +138,17 @@ def proof_fn_at(text_lines, line):
     return None
 
 
-def label_for(diag, labels, fnmap, text_lines):
+def label_for(diag, labels, fnmap, text_lines, gen_name=None):
     """Name the failed obligation: the OBL label on the failed clause, else the label of the taken
     function (or the name of the lemma) whose body holds the primary span."""
     spans = diag.get('spans', [])
+    if gen_name:
+        # spans inside vstd (e.g. the `requires false` of unreachable!/panic!) carry foreign line numbers
+        own = [s for s in spans if os.path.basename(s.get('file_name', '')) == gen_name]
+        if own:
+            if not any(s.get('is_primary') for s in own):
+                own[0] = dict(own[0], is_primary=True)
+            spans = own
     clause_spans = [s for s in spans if s.get('label') and re.search(r'failed this|failed precondition|this invariant|failed', s['label'])]
     primary = [s for s in spans if s.get('is_primary')]
     kind = diag.get('message', '')
@@ -240,7 +268,7 @@ def run_unit(unit, tier, seed):
             open(mpath, 'w').write(mtext)
             rr = run_verus(mpath, rlimit=u.get('rlimit'))
             tmp = {'undecided': [], 'failed': {}, 'canaries': [], 'solver_ms': 0, 'fn_success': {}}
-            _collect(rr, tmp, extract.obl_labels(mtext), fnmap, mtext.split('\n'), canaries, unit)
+            _collect(rr, tmp, extract.obl_labels(mtext), fnmap, mtext.split('\n'), canaries, unit, os.path.basename(mpath))
             killed = [o for o in tmp['failed'] if any(o.startswith(e) for e in expect)]
             res['mutants'].append({'name': mname, 'status': 'killed' if killed else 'SURVIVED', 'by': sorted(tmp['failed']), 'undecided': tmp['undecided']})
             os.remove(mpath)
@@ -261,7 +289,8 @@ def _has_requires(text_lines, f):
     return False
 
 
-def _collect(r, res, labels, fnmap, text_lines, canaries, unit):
+def _collect(r, res, labels, fnmap, text_lines, canaries, unit, gen_name=None):
+    gen_name = gen_name or (unit + '.rs')
     js = r['json']
     vr = js.get('verification-results', {})
     if not js:
@@ -269,15 +298,17 @@ def _collect(r, res, labels, fnmap, text_lines, canaries, unit):
         return
     canary_hit = set()
     for d in r['diags']:
+        d = resolve_spans(d, gen_name)
         c = classify_message(d)
         if c == 'ignore':
             continue
         # which function is the primary span in?
-        prim = [s for s in d.get('spans', []) if s.get('is_primary')] or d.get('spans', [])
+        own_spans = [s for s in d.get('spans', []) if os.path.basename(s.get('file_name', '')) == gen_name] or d.get('spans', [])
+        prim = [s for s in own_spans if s.get('is_primary')] or own_spans
         encl = proof_fn_at(text_lines, prim[0]['line_start']) if prim else None
         # errors inside canaries are expected
         in_canary = False
-        for s in d.get('spans', []):
+        for s in own_spans:
             nm = proof_fn_at(text_lines, s['line_start'])
             if nm and nm.startswith('canary_'):
                 in_canary = True
@@ -287,7 +318,7 @@ def _collect(r, res, labels, fnmap, text_lines, canaries, unit):
         if c == 'undecided':
             res['undecided'].append('%s (gen/%s.rs:%s)' % (d.get('message', '')[:200], unit, prim[0]['line_start'] if prim else '?'))
             continue
-        names, site = label_for(d, labels, fnmap, text_lines)
+        names, site = label_for(d, labels, fnmap, text_lines, gen_name)
         for nm in names:
             res['failed'].setdefault(nm, []).append({
                 'message': d.get('message'),
